@@ -343,7 +343,8 @@ def run(ctx):
     ctx.tlc_ok("Mounts_Judge", j)
     bad = ctx.read_ndjson(os.path.join(j.dir, "bad.ndjson"))
     drift = 0
-    model = []
+    model = []      # kernel views contradict the model: nothing of this run can be trusted
+    setup = []      # sandboxes that could not be started for reasons outside the mount block
     mi_drift = set()
     for b in bad:
         o = obs[b["i"] - 1]
@@ -358,8 +359,10 @@ def run(ctx):
                 mi_drift.add(c["id"])
             if drift <= 8:
                 ctx.note("DRIFT " + what)
+        elif b["c"] == "setup":
+            setup.append(what + ": " + o.get("err", ""))
         else:
-            model.append(what + (": " + o.get("err", "") if b["c"] == "setup" else ""))
+            model.append(what)
     # ---- 4b. TLC validates the strace records of the raw in-child sequence
     byid = {o["case"]["id"]: o for o in fobs}
     rejected = set()
@@ -399,8 +402,13 @@ def run(ctx):
         "container: link/mask/devnull options explored as 4 combinations (all 8 in the model); network and ipc namespaces are not unshared by the driver",
         "thorough real runs: every table of <= 2 entries in every variant, plus a seeded sample of 420 of the 1331 three-entry tables (all of them are model-checked)",
     ]
+    ctx.cov["sandboxes_not_started"] = len(setup)
     if model:
-        raise vlib.Inconclusive("model / set-up disagreement on %d sandboxes, first: %s" % (len(model), model[0]))
+        raise vlib.Inconclusive("the model disagrees with kernel truth on %d sandboxes, first: %s" % (len(model), model[0]))
+    if setup:
+        if not ctx.violations and not ctx.known_hits:
+            raise vlib.Inconclusive("%d sandboxes could not be started, first: %s" % (len(setup), setup[0]))
+        ctx.note("%d sandboxes could not be started (not judged), first: %s" % (len(setup), setup[0]))
     nontriv = sum(1 for o in obs if o["case"]["kinds"])
     return dict(evaluations=len(obs) + len(traces), distinct=nontriv,
                 rule="one evaluation = one real sandbox judged by TLC (+ one per strace record validated); non-trivial = non-empty mount table",
